@@ -1,7 +1,7 @@
 import PytaskProofs.Lemmas.EngineCrash
 import PytaskProofs.Lemmas.EngineConverge
-import PytaskProofs.Lemmas.EngineGraph
-import PytaskProofs.Lemmas.EngineExit
+import PytaskProofs.Lemmas.CrashGraph
+import PytaskProofs.Lemmas.CrashExit
 /-!
 # C05 — abrupt termination never leaves state that hides outstanding work
 
